@@ -4,6 +4,7 @@
 //! flavour with debug assertions off.
 #![allow(unused)]
 #![cfg(kani)]
+extern crate alloc;
 pub mod util;
 #[cfg(any(feature = "c03", feature = "c04", feature = "c11", feature = "c12"))]
 pub mod ef_grid;
